@@ -123,8 +123,10 @@ func buildQuery(op simrt.Op) string {
 	sel := func() string {
 		q := kw("select") + " " + cols + " " + kw("from") + " " + t1
 		if r.IntN(8) == 0 {
-			// a stray statement separator in the middle of the text (one message, forwarded as it is)
-			q += " " + t1[:1] + " ;"
+			// a stray statement separator in the middle of the text (one message, forwarded as it is);
+			// the upstream's token-based parser reads on behind it
+			q += " a ;" + pad() + kw("join") + " " + t2 + " b " + kw("on") + " a._key = b._key " + kw("within") + " 10m " + kw("last") + " 1h"
+			return q
 		}
 		if r.IntN(2) == 0 {
 			q += pad() + kw(pk(r, "join", "left join")) + " " + t2 + " " + kw("on") + " " + t1 + "._key = " + t2 + "._key"
